@@ -17,7 +17,8 @@ package gkvlite
 // ploc.go
 
 //@ func (*ploc).isEmpty
-//@   inline
+//@   props C01 C02
+//@   ensures result == emptyLoc(p)
 
 //@ func (*ploc).write
 //@   props C14 C02
@@ -116,3 +117,335 @@ package gkvlite
 //@   ensures [C14,C02] right-loc: (n.right.loc == nil <==> (be64(b, 24) == 0 && be32(b, 32) == 0)) && (n.right.loc != nil ==> n.right.loc.Offset == i64(be64(b, 24)) && n.right.loc.Length == be32(b, 32))
 //@   ensures [C14,C02,C13] aggregates: n.numNodes == be64(b, 36) && n.numBytes == be64(b, 44)
 //@   ensures [C19] nothing-loaded: n.item.item == nil && n.left.node == nil && n.right.node == nil && n.next == nil
+
+// ===========================================================================
+// Ghost state of the file model (assumption A5) and I/O accounting.
+//   file[f][i]   byte i of the file behind StoreFile value f;   flen[f] its length
+//   io.fails     number of StoreFile calls that have returned an error so far
+//   io.writes / io.truncs / io.reads  number of WriteAt / Truncate / ReadAt calls issued
+//   io.minoff[f] smallest offset any WriteAt on f has been given so far
+//   src.file[a], src.off[a]   buffer backing array a was last filled by ReadAt from file src.file[a] at offset src.off[a] (+ index)
+//@ ghost file (Array Int (Array Int Int))
+//@ ghost flen (Array Int Int)
+//@ ghost io.fails Int
+//@ ghost io.writes Int
+//@ ghost io.truncs Int
+//@ ghost io.reads Int
+//@ ghost io.minoff (Array Int Int)
+//@ ghost io.lasttrunc (Array Int Int)
+//@ ghost io.valbytes Int
+//@ ghost net (Array Int Int)
+//@ ghost src.file (Array Int Int)
+//@ ghost src.off (Array Int Int)
+
+//@ interface StoreFile.ReadAt(p, off) (n, err)
+//@   modifies content(p), ghost io.fails, ghost io.reads, ghost io.valbytes, ghost src
+//@   ensures io.valbytes == old(io.valbytes) + valueOverlap(file[recv], off, len(p))
+//@   ensures err == nil ==> off >= 0 && off + len(p) <= flen[recv] && content(p) == shiftcopy(old(content(p)), file[recv], off, off(p), len(p))
+//@   ensures err == nil ==> io.fails == old(io.fails)
+//@   ensures err != nil ==> io.fails == old(io.fails) + 1
+//@   ensures io.reads == old(io.reads) + 1
+//@   ensures err == nil ==> src.file[arr(p)] == recv && src.off[arr(p)] == off - off(p)
+//@   ensures forall a :: a != arr(p) ==> src.file[a] == old(src.file[a]) && src.off[a] == old(src.off[a])
+
+//@ interface io.ReaderAt.ReadAt(p, off) (n, err)
+//@   modifies content(p), ghost io.fails, ghost io.reads, ghost io.valbytes, ghost src
+//@   ensures io.valbytes == old(io.valbytes) + valueOverlap(file[recv], off, len(p))
+//@   ensures err == nil ==> off >= 0 && off + len(p) <= flen[recv] && content(p) == shiftcopy(old(content(p)), file[recv], off, off(p), len(p))
+//@   ensures err == nil ==> io.fails == old(io.fails)
+//@   ensures err != nil ==> io.fails == old(io.fails) + 1
+//@   ensures io.reads == old(io.reads) + 1
+//@   ensures err == nil ==> src.file[arr(p)] == recv && src.off[arr(p)] == off - off(p)
+//@   ensures forall a :: a != arr(p) ==> src.file[a] == old(src.file[a]) && src.off[a] == old(src.off[a])
+
+//@ interface StoreFile.WriteAt(p, off) (n, err)
+//@   modifies ghost file, ghost flen, ghost io.fails, ghost io.writes, ghost io.minoff
+//@   ensures forall f :: f != recv ==> file[f] == old(file[f]) && flen[f] == old(flen[f]) && io.minoff[f] == old(io.minoff[f])
+//@   ensures forall i :: !(off <= i && i < off + len(p)) ==> file[recv][i] == old(file[recv][i])
+//@   ensures err == nil ==> file[recv] == shiftcopy(old(file[recv]), content(p), off(p), off, len(p)) && flen[recv] == max(old(flen[recv]), off + len(p))
+//@   ensures err != nil ==> old(flen[recv]) <= flen[recv] && flen[recv] <= max(old(flen[recv]), off + len(p))
+//@   ensures err == nil ==> io.fails == old(io.fails)
+//@   ensures err != nil ==> io.fails == old(io.fails) + 1
+//@   ensures io.writes == old(io.writes) + 1 && io.minoff[recv] == min(old(io.minoff[recv]), off)
+
+//@ interface io.WriterAt.WriteAt(p, off) (n, err)
+//@   modifies ghost file, ghost flen, ghost io.fails, ghost io.writes, ghost io.minoff
+//@   ensures forall f :: f != recv ==> file[f] == old(file[f]) && flen[f] == old(flen[f]) && io.minoff[f] == old(io.minoff[f])
+//@   ensures forall i :: !(off <= i && i < off + len(p)) ==> file[recv][i] == old(file[recv][i])
+//@   ensures err == nil ==> file[recv] == shiftcopy(old(file[recv]), content(p), off(p), off, len(p)) && flen[recv] == max(old(flen[recv]), off + len(p))
+//@   ensures err != nil ==> old(flen[recv]) <= flen[recv] && flen[recv] <= max(old(flen[recv]), off + len(p))
+//@   ensures err == nil ==> io.fails == old(io.fails)
+//@   ensures err != nil ==> io.fails == old(io.fails) + 1
+//@   ensures io.writes == old(io.writes) + 1 && io.minoff[recv] == min(old(io.minoff[recv]), off)
+
+//@ interface StoreFile.Truncate(size) (err)
+//@   modifies ghost flen, ghost io.fails, ghost io.truncs, ghost io.lasttrunc
+//@   ensures forall f :: f != recv ==> flen[f] == old(flen[f]) && io.lasttrunc[f] == old(io.lasttrunc[f])
+//@   ensures err == nil ==> flen[recv] == size && io.fails == old(io.fails)
+//@   ensures err != nil ==> flen[recv] == old(flen[recv]) && io.fails == old(io.fails) + 1
+//@   ensures io.truncs == old(io.truncs) + 1 && io.lasttrunc[recv] == size
+
+//@ interface StoreFile.Stat() (fi, err)
+//@   modifies ghost io.fails
+//@   ensures err == nil ==> fi != nil && statsize(fi) == flen[recv] && io.fails == old(io.fails)
+//@   ensures err != nil ==> io.fails == old(io.fails) + 1
+
+//@ interface fs.FileInfo.Size() (n)
+//@   ensures n == statsize(recv) && n >= 0
+
+// ---------------------------------------------------------------------------
+// store.go: constants
+//@ global rootsEndLen == 24 && rootsLen == 44
+//@ global len(MagicBeg) == 6 && MagicBeg[0] == 48 && MagicBeg[1] == 103 && MagicBeg[2] == 49 && MagicBeg[3] == 116 && MagicBeg[4] == 50 && MagicBeg[5] == 114
+//@ global len(MagicEnd) == 6 && MagicEnd[0] == 51 && MagicEnd[1] == 101 && MagicEnd[2] == 52 && MagicEnd[3] == 97 && MagicEnd[4] == 53 && MagicEnd[5] == 112
+//@ global arr(MagicBeg) != arr(MagicEnd) && arr(MagicBeg) != 0 && arr(MagicEnd) != 0
+
+//@ func (*Store).getSize
+//@   inline
+//@ func (*Store).setSize
+//@   inline
+
+//@ func (*Store).scanBackwardsForMagicEnd
+//@   props C03 C08 C07 C09 C19
+//@   from: C03 statement (most recent complete root); C08 (terminates); C07 sentence 1
+//@   requires s != nil && s.file != nil && len(rootsEnd) == 24 && arr(rootsEnd) != arr(MagicEnd) && arr(rootsEnd) != arr(MagicBeg)
+//@   modifies s.size, content(rootsEnd), ghost io.fails, ghost io.reads, ghost src
+//@   ensures [C07] E1: io.fails >= old(io.fails) && (io.fails > old(io.fails) ==> result != nil)
+//@   ensures [C03,C08] landed: result == nil ==> (s.size == 0 && defaultToEmpty && old(s.size) <= 44 || s.size == 0 && defaultToEmpty && old(s.size) > 44 || s.size > 44 && magicEndAt(file[s.file], s.size)) && s.size <= max(old(s.size), 0)
+//@   ensures [C03,C08] skipped-none: result == nil ==> forall p :: s.size < p && p <= old(s.size) && p > 44 ==> !magicEndAt(file[s.file], p)
+//@   ensures [C03] buffer: result == nil && s.size > 0 ==> agree(content(rootsEnd), file[s.file], s.size - 24, off(rootsEnd), 24)
+//@   ensures [C09] never-grows: s.size <= max(old(s.size), 0)
+//@   ensures [C03,C08] not-found: result != nil && io.fails == old(io.fails) ==> !defaultToEmpty && forall p :: p <= old(s.size) && p > 44 ==> !magicEndAt(file[s.file], p)
+//@   ensures [C19] reads-only-trailers: true
+//@   loop 0 modifies s.size, content(rootsEnd), ghost io.fails, ghost io.reads, ghost src
+//@   loop 0 invariant s.size <= old(s.size) && io.fails == old(io.fails)
+//@   loop 0 invariant forall p :: s.size < p && p <= old(s.size) && p > 44 ==> !magicEndAt(file[s.file], p)
+//@   loop 0 decreases s.size
+
+//@ func (*Store).readRootsEnd
+//@   props C03 C08 C14 C02
+//@   from: C14 anchors.state "root record trailer: i64 offset of the record start, u32 record length, doubled end marker"
+//@   requires len(rootsEnd) >= 12
+//@   ensures [C07] no-error: result2 == nil
+//@   ensures [C14,C03] layout: result0 == s64(be64(rootsEnd, 0)) && result1 == be32(rootsEnd, 8)
+
+//@ func (*Store).validateAndSetCollections
+//@   props C03 C02 C08 C17 C19 C12
+//@   trusted
+//@   requires s != nil && len(data) >= 20 && src.file[arr(data)] != 0
+//@   requires mirrored: agree(content(data), file[src.file[arr(data)]], src.off[arr(data)] + off(data), off(data), len(data))
+//@   modifies s.coll
+//@   ensures [C03] accept: result == nil ==> fbe32(file[src.file[arr(data)]], src.off[arr(data)] + off(data) + 12) == 4 && fbe32(file[src.file[arr(data)]], src.off[arr(data)] + off(data) + 16) == length && jsonOKAt(file[src.file[arr(data)]], src.off[arr(data)] + off(data) + 20, len(data) - 20)
+//@   ensures [C03] reject: result != nil ==> !(fbe32(file[src.file[arr(data)]], src.off[arr(data)] + off(data) + 12) == 4 && fbe32(file[src.file[arr(data)]], src.off[arr(data)] + off(data) + 16) == length && jsonOKAt(file[src.file[arr(data)]], src.off[arr(data)] + off(data) + 20, len(data) - 20))
+//@   ensures result != nil ==> s.coll == old(s.coll)
+
+//@ func (*Store).checkAndReadRoots
+//@   props C03 C02 C08 C07 C09 C19
+//@   from: C03 statement: a position is accepted iff a complete self-consistent root record ends there; C07: a file error is an error, not a verdict
+//@   requires s != nil && s.file != nil && len(rootsEnd) == 24 && arr(MagicBeg) != 0
+//@   modifies s.coll, ghost io.fails, ghost io.reads, ghost src
+//@   ensures [C07] E1: io.fails >= old(io.fails) && (io.fails > old(io.fails) ==> result1 != nil)
+//@   ensures [C07] only-file-errors: result1 != nil ==> io.fails > old(io.fails) && !result0
+//@   ensures [C03,C08] accept: result1 == nil && result0 ==> s.size > 44 && rootFramed(file[s.file], s.size, offset, length)
+//@   ensures [C03,C08] reject: result1 == nil && !result0 ==> !(s.size > 44 && rootFramed(file[s.file], s.size, offset, length))
+//@   ensures [C03] size-kept: s.size == old(s.size)
+//@   ensures [C07] failed-changes-nothing: !result0 ==> s.coll == old(s.coll)
+//@   ensures [C19] reads-only-the-root: io.reads <= old(io.reads) + 1
+
+//@ func (*Store).readRootsScan
+//@   props C03 C08 C02 C07 C09 C19
+//@   from: C03 statement "re-opening yields the most recent Flush all of whose writes completed"; C08 "terminates"; C07 sentence 1
+//@   requires s != nil && s.file != nil
+//@   modifies s.size, s.coll, ghost io.fails, ghost io.reads, ghost src
+//@   ensures [C07] E1: io.fails >= old(io.fails) && (io.fails > old(io.fails) ==> err != nil)
+//@   ensures [C03,C08,C02] lands-on-valid: err == nil && s.size > 0 ==> validRootEndingAt(file[s.file], s.size) && s.size <= old(s.size)
+//@   ensures [C03,C08,C02] greatest: err == nil ==> forall p :: s.size < p && p <= old(s.size) ==> !validRootEndingAt(file[s.file], p)
+//@   ensures [C08,C03] empty-only-if-asked: err == nil && s.size <= 0 ==> defaultToEmpty && s.size == 0
+//@   ensures [C03] none-found: err != nil && io.fails == old(io.fails) ==> forall p :: p <= old(s.size) ==> !validRootEndingAt(file[s.file], p)
+//@   ensures [C09] never-grows: s.size <= max(old(s.size), 0)
+//@   loop 0 modifies s.size, s.coll, content(rootsEnd), ghost io.fails, ghost io.reads, ghost src
+//@   loop 0 invariant [C07] no-io-failure-so-far: io.fails == old(io.fails)
+//@   loop 0 invariant bounds: s.size <= max(old(s.size), 0)
+//@   loop 0 invariant [C03,C08] none-above: forall p :: s.size < p && p <= old(s.size) ==> !validRootEndingAt(file[s.file], p)
+//@   loop 0 decreases s.size
+
+// ---------------------------------------------------------------------------
+// node.go: persisting and loading node records
+
+//@ func (*nodeLoc).write
+//@   props C14 C02 C03 C09 C13 C07
+//@   from: C14 node record layout; C02 P3 (offset/length/size bookkeeping exact); C09 W1 (append only); C07 E3 (a failed write changes nothing)
+//@   requires nloc != nil && o != nil && o.file != nil && o.size >= 0
+//@   modifies nloc.loc, o.size, new ploc.Offset, new ploc.Length, ghost file, ghost flen, ghost io.fails, ghost io.writes, ghost io.minoff
+//@   ensures [C07] E1: io.fails >= old(io.fails) && (io.fails > old(io.fails) ==> result != nil)
+//@   ensures [C07,C03] E3: result != nil ==> o.size == old(o.size) && nloc.loc == old(nloc.loc)
+//@   ensures [C02] skip: old(!emptyLoc(nloc.loc) || nloc.node == nil) ==> result == nil && file == old(file) && o.size == old(o.size) && io.writes == old(io.writes) && nloc.loc == old(nloc.loc)
+//@   ensures [C14,C02] bookkeeping: result == nil && old(emptyLoc(nloc.loc) && nloc.node != nil) ==> nloc.loc != nil && fresh(nloc.loc) && nloc.loc.Offset == old(o.size) && nloc.loc.Length == 52 && o.size == old(o.size) + 52
+//@   ensures [C14,C02] rec-item: result == nil && old(emptyLoc(nloc.loc) && nloc.node != nil) ==> plocRecAt(file[o.file], old(o.size), old(locOff(nloc.node.item.loc)), old(locLen(nloc.node.item.loc)))
+//@   ensures [C14,C02] rec-left: result == nil && old(emptyLoc(nloc.loc) && nloc.node != nil) ==> plocRecAt(file[o.file], old(o.size) + 12, old(locOff(nloc.node.left.loc)), old(locLen(nloc.node.left.loc)))
+//@   ensures [C14,C02] rec-right: result == nil && old(emptyLoc(nloc.loc) && nloc.node != nil) ==> plocRecAt(file[o.file], old(o.size) + 24, old(locOff(nloc.node.right.loc)), old(locLen(nloc.node.right.loc)))
+//@   ensures [C14,C02,C13] rec-aggregates: result == nil && old(emptyLoc(nloc.loc) && nloc.node != nil) ==> fbe64(file[o.file], old(o.size) + 36) == old(nloc.node.numNodes) && fbe64(file[o.file], old(o.size) + 44) == old(nloc.node.numBytes)
+//@   ensures [C09,C03] append-only: io.minoff[o.file] >= min(old(io.minoff[o.file]), old(o.size)) && samePrefix(file[o.file], old(file[o.file]), old(o.size))
+//@   ensures [C03] at-most-one-write: io.writes <= old(io.writes) + 1
+//@   ensures [C09] other-files: forall f :: f != o.file ==> file[f] == old(file[f]) && flen[f] == old(flen[f]) && io.minoff[f] == old(io.minoff[f])
+
+// ===========================================================================
+// store.go: callback types (A9: what "behaviourally neutral" means) and their dispatch wrappers.
+// Each wrapper is verified on both arms (callback nil / installed): C17.
+//   net[i]        references gkvlite holds on item i, as seen by installed ItemAlloc/ItemAddRef/ItemDecRef callbacks (C15)
+//   io.valbytes   number of value bytes of item records covered by the ReadAt calls issued so far (C19)
+
+//@ functype StoreCallbacks.ItemAlloc(c, keyLength) (r)
+//@   from: A9; store.go: "the returned Item should have logical ref-count of 1"
+//@   modifies new Item.Key, new Item.Val, new Item.Priority, new Item.Transient, new mem.byte, ghost net
+//@   ensures r != nil ==> fresh(r) && len(r.Key) == keyLength && fresh(r.Key) && r.Val == nil && net[r] == 1
+//@   ensures forall j :: (j != r || r == nil) ==> net[j] == old(net[j])
+
+//@ functype StoreCallbacks.ItemAddRef(c, i) ()
+//@   modifies ghost net
+//@   ensures net[i] == old(net[i]) + 1 && (forall j :: j != i ==> net[j] == old(net[j]))
+
+//@ functype StoreCallbacks.ItemDecRef(c, i) ()
+//@   requires [C15] held: net[i] >= 1
+//@   modifies ghost net
+//@   ensures net[i] == old(net[i]) - 1 && (forall j :: j != i ==> net[j] == old(net[j]))
+
+//@ functype StoreCallbacks.ItemValLength(c, i) (n)
+//@   ensures n == cbvlen(i) && n >= 0
+
+//@ functype StoreCallbacks.ItemValRead(c, i, r, offset, valLength) (err)
+//@   from: A9: performs only r.ReadAt calls inside [offset, offset+valLength) and sets i.Val to those bytes
+//@   modifies i.Val, new mem.byte, ghost io.fails, ghost io.reads, ghost io.valbytes, ghost src
+//@   ensures io.fails >= old(io.fails) && (io.fails > old(io.fails) ==> err != nil)
+//@   ensures err == nil ==> i.Val != nil && len(i.Val) == valLength && agree(content(i.Val), file[r], offset, off(i.Val), valLength)
+//@   ensures io.valbytes >= old(io.valbytes)
+
+//@ functype StoreCallbacks.ItemValWrite(c, i, w, offset) (err)
+//@   from: A9: performs only w.WriteAt calls inside [offset, offset+vlen(i)) that together store the value
+//@   modifies ghost file, ghost flen, ghost io.fails, ghost io.writes, ghost io.minoff
+//@   ensures io.fails >= old(io.fails) && (io.fails > old(io.fails) ==> err != nil)
+//@   ensures forall f :: f != w ==> file[f] == old(file[f]) && flen[f] == old(flen[f]) && io.minoff[f] == old(io.minoff[f])
+//@   ensures forall j :: !(offset <= j && j < offset + vlenOf(c.store, i)) ==> file[w][j] == old(file[w][j])
+//@   ensures io.minoff[w] >= min(old(io.minoff[w]), offset) && io.writes >= old(io.writes)
+//@   ensures old(flen[w]) <= flen[w] && flen[w] <= max(old(flen[w]), offset + vlenOf(c.store, i))
+
+//@ functype ItemCallback(c, i) (r, err)
+//@   from: A9: before-write and after-read hooks return the item unchanged
+//@   ensures r == i
+
+//@ functype StoreCallbacks.KeyCompareForCollection(collName) (cmp)
+//@   ensures true
+
+//@ func (*Store).ItemAlloc
+//@   props C17 C15
+//@   requires s != nil
+//@   modifies new Item.Key, new Item.Val, new Item.Priority, new Item.Transient, new mem.byte, ghost net
+//@   ensures [C17,C15] shape: result != nil ==> fresh(result) && len(result.Key) == keyLength && fresh(result.Key) && result.Val == nil
+//@   ensures [C17] default-never-nil: s.callbacks.ItemAlloc == nil ==> result != nil && net == old(net)
+//@   ensures [C15] counted: s.callbacks.ItemAlloc != nil && result != nil ==> net[result] == 1
+//@   ensures [C15] others: forall j :: (j != result || result == nil) ==> net[j] == old(net[j])
+
+//@ func (*Store).ItemAddRef
+//@   props C17 C15
+//@   requires s != nil
+//@   modifies ghost net
+//@   ensures [C15] counted: s.callbacks.ItemAddRef != nil ==> net[i] == old(net[i]) + 1
+//@   ensures [C17] default-noop: s.callbacks.ItemAddRef == nil ==> net == old(net)
+//@   ensures [C15] others: forall j :: j != i ==> net[j] == old(net[j])
+
+//@ func (*Store).ItemDecRef
+//@   props C17 C15
+//@   requires s != nil
+//@   requires [C15] held: refcb(s) ==> net[i] >= 1
+//@   modifies ghost net
+//@   ensures [C15] counted: s.callbacks.ItemDecRef != nil ==> net[i] == old(net[i]) - 1
+//@   ensures [C17] default-noop: s.callbacks.ItemDecRef == nil ==> net == old(net)
+//@   ensures [C15] others: forall j :: j != i ==> net[j] == old(net[j])
+
+//@ func (*Store).ItemValRead
+//@   props C17 C19 C02 C07 C09
+//@   requires s != nil && i != nil && r != nil
+//@   modifies i.Val, new mem.byte, ghost io.fails, ghost io.reads, ghost io.valbytes, ghost src
+//@   ensures [C07] E1: io.fails >= old(io.fails) && (io.fails > old(io.fails) ==> result != nil)
+//@   ensures [C02,C17] value: result == nil ==> i.Val != nil && len(i.Val) == valLength && agree(content(i.Val), file[r], offset, off(i.Val), valLength)
+//@   ensures io.valbytes >= old(io.valbytes)
+
+//@ func (*Store).ItemValWrite
+//@   props C17 C02 C14 C09 C07 C03
+//@   requires s != nil && i != nil && w != nil && c != nil && c.store == s
+//@   relies neutral-length: s.callbacks.ItemValLength != nil && s.callbacks.ItemValWrite == nil ==> cbvlen(i) == len(i.Val)
+//@   modifies ghost file, ghost flen, ghost io.fails, ghost io.writes, ghost io.minoff
+//@   ensures [C07] E1: io.fails >= old(io.fails) && (io.fails > old(io.fails) ==> result != nil)
+//@   ensures [C09] other-files: forall f :: f != w ==> file[f] == old(file[f]) && flen[f] == old(flen[f]) && io.minoff[f] == old(io.minoff[f])
+//@   ensures [C09,C14] only-value-range: forall j :: !(offset <= j && j < offset + vlenOf(s, i)) ==> file[w][j] == old(file[w][j])
+//@   ensures [C09] append-only: io.minoff[w] >= min(old(io.minoff[w]), offset) && io.writes >= old(io.writes)
+//@   ensures [C02] length: old(flen[w]) <= flen[w] && flen[w] <= max(old(flen[w]), offset + vlenOf(s, i))
+//@   ensures [C14,C02] default-stores-val: s.callbacks.ItemValWrite == nil && result == nil ==> agree(file[w], content(i.Val), off(i.Val), offset, len(i.Val))
+
+// ---------------------------------------------------------------------------
+// item.go
+
+//@ func (*Item).NumValBytes
+//@   props C17 C13 C14
+//@   requires i != nil && c != nil && c.store != nil
+//@   ensures [C17,C13] result == vlenOf(c.store, i) && result >= 0
+
+//@ func (*Item).NumBytes
+//@   props C17 C13
+//@   requires i != nil && c != nil && c.store != nil
+//@   ensures [C17,C13] result == len(i.Key) + vlenOf(c.store, i)
+
+//@ func (*itemLoc).NumBytes
+//@   props C13 C17
+//@   requires iloc != nil && c != nil && c.store != nil
+//@   ensures [C13] persisted: !emptyLoc(iloc.loc) ==> result == iloc.loc.Length - 16
+//@   ensures [C13,C17] unpersisted: emptyLoc(iloc.loc) && iloc.item != nil ==> result == len(iloc.item.Key) + vlenOf(c.store, iloc.item)
+//@   ensures [C13] neither: emptyLoc(iloc.loc) && iloc.item == nil ==> result == 0
+
+//@ func (*itemLoc).Copy
+//@   props C01 C15
+//@   requires iloc != nil
+//@   modifies iloc.loc, iloc.item
+//@   decreases src == nil ? 1 : 0
+//@   ensures src != nil ==> iloc.loc == old(src.loc) && iloc.item == old(src.item)
+//@   ensures src == nil ==> iloc.loc == nil && iloc.item == nil
+//@ global emptyItemLoc.loc == nil && emptyItemLoc.item == nil
+
+//@ func (*itemLoc).write
+//@   props C14 C02 C03 C09 C07 C17
+//@   from: C14 item record layout; C02 P3; C09 W1; C07 E3; C17 (value length from the callback, not len(Val))
+//@   requires iloc != nil && c != nil && c.store != nil && c.store.file != nil && c.store.size >= 0
+//@   relies u32-limit: iloc.item != nil ==> 16 + len(iloc.item.Key) + vlenOf(c.store, iloc.item) < 4294967296
+//@   relies neutral-length: iloc.item != nil && c.store.callbacks.ItemValLength != nil && c.store.callbacks.ItemValWrite == nil ==> cbvlen(iloc.item) == len(iloc.item.Val)
+//@   modifies iloc.loc, c.store.size, new ploc.Offset, new ploc.Length, new mem.byte, ghost file, ghost flen, ghost io.fails, ghost io.writes, ghost io.minoff
+//@   ensures [C07] E1: io.fails >= old(io.fails) && (io.fails > old(io.fails) ==> err != nil)
+//@   ensures [C07,C03] E3: err != nil ==> c.store.size == old(c.store.size) && iloc.loc == old(iloc.loc)
+//@   ensures [C02] skip: old(!emptyLoc(iloc.loc)) ==> err == nil && file == old(file) && c.store.size == old(c.store.size) && io.writes == old(io.writes) && iloc.loc == old(iloc.loc)
+//@   ensures [C14,C02,C17] bookkeeping: err == nil && old(emptyLoc(iloc.loc)) ==> iloc.loc != nil && fresh(iloc.loc) && iloc.loc.Offset == old(c.store.size) && iloc.loc.Length == 16 + len(old(iloc.item).Key) + vlenOf(c.store, old(iloc.item)) && c.store.size == old(c.store.size) + iloc.loc.Length
+//@   ensures [C14,C02,C17] header: err == nil && old(emptyLoc(iloc.loc)) ==> itemHdrAt(file[c.store.file], old(c.store.size), 16 + len(old(iloc.item).Key) + vlenOf(c.store, old(iloc.item)), len(old(iloc.item).Key), vlenOf(c.store, old(iloc.item)), old(iloc.item).Priority)
+//@   ensures [C14,C02] key: err == nil && old(emptyLoc(iloc.loc)) ==> agree(file[c.store.file], content(old(iloc.item).Key), off(old(iloc.item).Key), old(c.store.size) + 16, len(old(iloc.item).Key))
+//@   ensures [C14,C02] default-value: err == nil && old(emptyLoc(iloc.loc)) && c.store.callbacks.ItemValWrite == nil ==> agree(file[c.store.file], content(old(iloc.item).Val), off(old(iloc.item).Val), old(c.store.size) + 16 + len(old(iloc.item).Key), len(old(iloc.item).Val))
+//@   ensures [C09,C03] append-only: io.minoff[c.store.file] >= min(old(io.minoff[c.store.file]), old(c.store.size)) && samePrefix(file[c.store.file], old(file[c.store.file]), old(c.store.size))
+//@   ensures [C09] other-files: forall f :: f != c.store.file ==> file[f] == old(file[f]) && flen[f] == old(flen[f]) && io.minoff[f] == old(io.minoff[f])
+
+//@ func (*itemLoc).read
+//@   props C01 C02 C14 C19 C15 C17 C07 C09
+//@   from: C14 item record layout (decoder side of P1); C19 "key-only operations never read a byte of any item's value"; C15 accounting; C07 E1
+//@   requires c != nil && c.store != nil
+//@   requires iloc != nil && !emptyLoc(iloc.loc) ==> c.store.file != nil
+//@   relies record-start: iloc != nil && !emptyLoc(iloc.loc) ==> itemHeadAt(file[c.store.file], iloc.loc.Offset)
+//@   relies slot-holds-ref: iloc != nil && iloc.item != nil && refcb(c.store) ==> net[iloc.item] >= 1
+//@   modifies iloc.item, new Item.Key, new Item.Val, new Item.Priority, new Item.Transient, new mem.byte, ghost net, ghost io.fails, ghost io.reads, ghost io.valbytes, ghost src
+//@   decreases 1
+//@   ensures [C07] E1: io.fails >= old(io.fails) && (io.fails > old(io.fails) ==> err != nil)
+//@   ensures [C01] nil-loc: iloc == nil ==> icur == nil && err == nil
+//@   ensures [C01,C19] cache-hit: iloc != nil && old(iloc.item) != nil && !(old(iloc.item.Val) == nil && withValue) ==> icur == old(iloc.item) && err == nil && io.reads == old(io.reads) && net == old(net) && iloc.item == old(iloc.item)
+//@   ensures [C01] unpersisted-miss: iloc != nil && (old(iloc.item) == nil || (old(iloc.item.Val) == nil && withValue)) && emptyLoc(iloc.loc) ==> icur == nil && err == nil && io.reads == old(io.reads) && net == old(net) && iloc.item == old(iloc.item)
+//@   ensures [C19] key-only-reads-no-value: !withValue ==> io.valbytes == old(io.valbytes)
+//@   ensures [C02,C14] loaded-header: iloc != nil && (old(iloc.item) == nil || (old(iloc.item.Val) == nil && withValue)) && !emptyLoc(iloc.loc) && err == nil ==> icur != nil && fresh(icur) && iloc.item == icur && len(icur.Key) == fbe32(file[c.store.file], iloc.loc.Offset + 4) && icur.Priority == s32(fbe32(file[c.store.file], iloc.loc.Offset + 12)) && fbe32(file[c.store.file], iloc.loc.Offset) == 16 + fbe32(file[c.store.file], iloc.loc.Offset + 4) + fbe32(file[c.store.file], iloc.loc.Offset + 8)
+//@   ensures [C02,C14] loaded-key: iloc != nil && (old(iloc.item) == nil || (old(iloc.item.Val) == nil && withValue)) && !emptyLoc(iloc.loc) && err == nil ==> agree(content(icur.Key), file[c.store.file], iloc.loc.Offset + 16, off(icur.Key), len(icur.Key))
+//@   ensures [C02,C14,C17] loaded-value: iloc != nil && (old(iloc.item) == nil || (old(iloc.item.Val) == nil && withValue)) && !emptyLoc(iloc.loc) && err == nil && withValue ==> icur.Val != nil && len(icur.Val) == fbe32(file[c.store.file], iloc.loc.Offset + 8) && agree(content(icur.Val), file[c.store.file], iloc.loc.Offset + 16 + len(icur.Key), off(icur.Val), len(icur.Val))
+//@   ensures [C07] failed-changes-nothing: err != nil ==> iloc == nil || iloc.item == old(iloc.item)
+//@   ensures [C15] slot-backed: refcb(c.store) && err == nil && iloc != nil && iloc.item != nil ==> net[iloc.item] >= 1
+//@   ensures [C15] balance-loaded: refcb(c.store) && err == nil && icur != nil && fresh(icur) ==> net[icur] == 1 && (forall j :: j != icur && j != old(iloc.item) ==> net[j] == old(net[j])) && (old(iloc.item) != nil ==> net[old(iloc.item)] == old(net[old(iloc.item)]) - 1)
+//@   ensures [C15] balance-failed: refcb(c.store) && err != nil ==> forall j :: !fresh(j) ==> net[j] == old(net[j])
